@@ -118,6 +118,11 @@ pub fn run(rec: &mut Rec, path: &str) {
                     rec.op(line, "?");
                 }
             }
+            ["conn", "new", "default"] => {
+                let mut d = ConnDriver::new_default(rec);
+                let _ = &mut d;
+                conn = Some(d);
+            }
             ["conn", "new", l] => {
                 // ConnDriver::new emits `l00 …` and `conn new …` itself
                 let d = ConnDriver::new_quiet(rec, l.parse().unwrap_or(51200), line);
